@@ -439,6 +439,54 @@ def check_near_valid(case):
     return {"nontrivial": n >= 8, "labels": sorted(outs)[:3], "sample": text[:200]}
 
 
+# format strings are a language of their own inside std.format / %: totality over (mal)formed directives and any arguments
+FMT_PIECES = ["%", "%", "%", "(k)", "(", ")", "(é)", "#", "0", "-", " ", "+", "5", "12", "*", ".", ".2", ".*", ".0", ".12", "h", "l", "L", "d", "i", "u", "o", "x", "X",
+              "e", "E", "f", "F", "g", "G", "c", "s", "s", "r", "%%", "a", "\u00e9", "", "1e3", "-1"]
+FMT_ARGS = ["1", "-1", "0.5", "1e300", "65", "0x41", "'a'", "'abc'", "'\u00e9\u00e9'", "''", "null", "true", "[1]", "[]", "{}", "{k: 1}", "{k: 'abc'}", "{'\u00e9': 2}",
+            "function(x) x", "[1, 2]", "['abc', 2]", "[2, 'abc']", "[1, 2, 3]", "[5, 2, 'abc']", "[null]", "{k: [1]}", "1114112", "-0", "3.999"]
+
+
+@st.composite
+def fmt_case(draw):
+    return {"pieces": draw(st.lists(st.integers(0, len(FMT_PIECES) - 1), min_size=1, max_size=8)), "arg": draw(st.integers(0, len(FMT_ARGS) - 1)),
+            "wrap": draw(st.booleans()), "cli": draw(st.integers(0, 39)) == 0}
+
+
+def check_fmt(case):
+    fmt = "".join(FMT_PIECES[i] for i in case["pieces"])
+    arg = FMT_ARGS[case["arg"]]
+    src = (f"std.format({V.jsonnet_string(fmt)}, {arg})" if case["wrap"] else f"{V.jsonnet_string(fmt)} % {arg}")
+    out = run_stdlib_call(src, case["cli"])
+    return {"nontrivial": fmt.count("%") >= 1, "labels": [out], "sample": src[:160]}
+
+
+# every way of being (in)valid UTF-8, in every lexical context that decodes characters
+def enum_utf8(tier, worker, nworkers):
+    for lead in range(0x80, 0x100):
+        if lead % nworkers == worker:
+            yield {"lead": lead}
+
+
+def check_utf8(case):
+    lead = case["lead"]
+    seconds = [0x00, 0x41, 0x7f, 0x80, 0x8f, 0x90, 0x9f, 0xa0, 0xbf, 0xc0, 0xe0, 0xf4, 0xff] if True else []
+    tails = [b"", b"\x80", b"\x80\x80", b"\xbf\xbf\xbf", b"\x80A", b"\xbf\xbf"]
+    n = 0
+    outs = {}
+    for b1 in seconds:
+        for tail in tails:
+            seq = bytes([lead, b1]) + tail
+            for src in (seq, b'"a' + seq + b'z"', b"@'a" + seq + b"z'", b"|||\n a" + seq + b"z\n|||", b"/* " + seq + b" */ 1", b"# " + seq + b"\n1",
+                        b"local a" + seq + b" = 1; a", b"{" + seq + b": 1}", b"'\\u00" + seq + b"'", b"1 +" + seq + b"1"):
+                r = eval_bytes(src)
+                if "panic" in r:
+                    raise util.panic_violation(r["panic"], f"source {src!r}")
+                o = judge(r, f"source {src!r}")
+                outs[o] = outs.get(o, 0) + 1
+                n += 1
+    return {"nontrivial": True, "labels": sorted(outs), "sample": f"lead byte 0x{lead:02x}: {n} sources ({outs})"}
+
+
 # regression sources: inputs that once crashed (kept forever, run in-process and through the binary)
 REGRESSIONS = [
     'std.mapWithIndex(std.length, "0x1F")', 'std.flatMap(function(k, v) v, [error "lazy"])', 'std.map(function(a, b) b, [1])',
@@ -472,6 +520,8 @@ CHECKS = [
     Check("syntax_tree_programs", check_program, program_case, quick=200, thorough=12000),
     Check("near_valid_programs", check_near_valid, near_valid_case, quick=60, thorough=1500),
     Check("bindings", check_bindings, binding_case, quick=80, thorough=4000),
+    Check("format_string_soup", check_fmt, fmt_case, quick=400, thorough=20000),
+    Check("utf8_boundaries_in_every_context", check_utf8, enumerate_fn=enum_utf8, exhaustive=True),
     Check("deep_nesting_probe", check_probe, enumerate_fn=enum_probe, workers=1),
     Check("regression_sources", check_regression, enumerate_fn=enum_regressions),
     _fuzz.replay_check(["pipeline"]),
